@@ -113,17 +113,18 @@ Section Top.
     destruct (alookup id ws) as [[c m|ddir]|] eqn:E; try reflexivity.
     - destruct (sync_jobs_m frepr cf o (proj_deep cf o) true (Some sdir) (Some ddir) JNull) as [[x|] e]; simpl;
         [apply alookup_aset_other; congruence|reflexivity].
-    - apply copy_tree_frame. assumption.
+    - apply copy_tree_gen_frame. assumption.
   Qed.
 
-  Definition clone_excl (o : opts) (k : str) : bool :=
-    o_exclude o k && negb (str_eqb k FN_SP || str_eqb k FN_DOC).
+  (* what a clone leaves out directly in the job directory: what a user pattern matches, except the job's own two
+     files; below the job directory the user patterns alone decide (618e7cc) *)
+  Definition clone_excl (o : opts) (k : str) : bool := o_exclude o k && negb (own_name k).
 
-  (* a job that does not exist in the destination is cloned: a copy of the whole source job directory *)
+  (* a job that does not exist in the destination is cloned: a copy of the source job directory *)
   Lemma clone_exact : forall o id sd ws, o_dry_run o = false -> alookup id ws = None ->
     clone_or_sync frepr cf o (id, Dir sd) ws =
-    (ws ++ [(id, touch (if fix_excl cf then prune (clone_excl o) (Dir sd) else Dir sd))], None).
-  Proof. intros o id sd ws Hdry Hn. unfold clone_or_sync, copy_tree. rewrite Hn, Hdry. reflexivity. Qed.
+    (ws ++ [(id, touch (if fix_excl cf then clone_prune cf o (Dir sd) else Dir sd))], None).
+  Proof. intros o id sd ws Hdry Hn. unfold clone_or_sync, copy_tree_gen. rewrite Hn, Hdry. reflexivity. Qed.
 
   Lemma file_same_deep : forall c1 m1 c2 m2,
     file_same frepr true c1 m1 c2 m2 = bytes_eqb (content_bytes frepr c1) (content_bytes frepr c2).
@@ -185,7 +186,7 @@ Section Top.
     - destruct (sync_jobs_m frepr cf o (proj_deep cf o) true (Some sdir) (Some ddir) JNull) as [[x|] e]; cbn [fst snd].
       + rewrite !alookup_aset_same. auto.
       + split; congruence.
-    - apply copy_tree_local. congruence.
+    - apply copy_tree_gen_local. congruence.
   Qed.
 
   Definition sel_jobs (o : opts) (src : project) : dir := filter (fun kn => job_selected o (fst kn)) (p_ws src).
@@ -275,7 +276,7 @@ Section Top.
         destruct (sync_jobs_m frepr cf o (proj_deep cf o) true (Some sdir) (Some ddir) JNull) as [x e].
         simpl in J. rewrite J by (intros sd Hsd; inversion Hsd; subst; split; [left; assumption|eapply Hj; eauto]).
         simpl. apply aset_same. assumption.
-      - unfold copy_tree. rewrite Hdry, H4. reflexivity. }
+      - unfold copy_tree, copy_tree_gen. rewrite Hdry, H4. reflexivity. }
     destruct all.
     - assert (R : fst (run_steps_all (clone_or_sync frepr cf o)
                                       (filter (fun kn => job_selected o (fst kn)) (p_ws src)) (p_ws dst)) = p_ws dst).
